@@ -118,8 +118,11 @@ def handleQuery (j : Json) : E Json := do
   let srcJ := fieldD j "src" .null
   match srcJ with
   | .null =>
+    -- `==` between the first few matches (Match.__eq__), row by row
+    let ms := (drainMach cxJ stepsM.toArray (.doc doc) 6 {})
+    let eqm : Json := .arr (ms.map fun a => Json.arr (ms.map fun b => Json.bool (matchEq a b)).toArray).toArray
     return Json.mkObj [("mach", machRecord cxJ stepsM (.doc doc) false o),
-                       ("spec", specRecord stepsS (.root doc) false o)]
+                       ("spec", specRecord stepsS (.root doc) false o), ("eqm", eqm)]
   | _ =>
     let sp ← field srcJ "path"
     let k ← match (← field srcJ "k").getNat? with | .ok n => pure n | .error e => .error e
